@@ -161,9 +161,22 @@ Fixpoint cls_union (ts : list tok) (acc : cset) : ures :=
       end
   end.
 
+(** Simple case folding, modelled for ASCII and Latin-1 letters only. *)
+Definition lower (c : char) : char :=
+  if in_rng 65 90 c then (c + 32)%N
+  else if in_rng 192 222 c && negb (N.eqb c 215) then (c + 32)%N else c.
+Definition upper (c : char) : char :=
+  if in_rng 97 122 c then (c - 32)%N
+  else if in_rng 224 254 c && negb (N.eqb c 247) then (c - 32)%N else c.
+
+Definition fold_set (ci : bool) (f : cset) : cset :=
+  if ci then fun x => f x || f (lower x) || f (upper x) else f.
+
+
 Inductive cres := COk (f : cset) | CErr | CUnm.
 
-Fixpoint cls_ops (fuel : nat) (lhs : cset) (more : option (cop * list tok)) : cres :=
+(** the engine folds case in each operand before it applies a set operator *)
+Fixpoint cls_ops (ci : bool) (fuel : nat) (lhs : cset) (more : option (cop * list tok)) : cres :=
   match more with
   | None => COk lhs
   | Some (o, ts) =>
@@ -171,7 +184,7 @@ Fixpoint cls_ops (fuel : nat) (lhs : cset) (more : option (cop * list tok)) : cr
       | O => CUnm
       | S f =>
           match cls_union ts cempty with
-          | UOk rhs more' => cls_ops f (cop_apply o lhs rhs) more'
+          | UOk rhs more' => cls_ops ci f (cop_apply o (fold_set ci lhs) (fold_set ci rhs)) more'
           | UErr => CErr
           | UUnm => CUnm
           end
@@ -188,26 +201,15 @@ Fixpoint strip_dashes (ts : list tok) (acc : cset) : list tok * cset :=
 Definition starts_caret (ts : list tok) : bool :=
   match ts with t :: _ => is_raw t 94 | [] => false end.
 
-Definition class_sem (neg : bool) (items : list citem) : cres :=
+Definition class_sem (ci : bool) (neg : bool) (items : list citem) : cres :=
   let ts := flat_map item_toks items in
   if negb neg && starts_caret ts then CUnm else      (* "[^": never produced by the PEG *)
   let '(ts', acc) := strip_dashes ts cempty in
   match cls_union ts' acc with
-  | UOk f more => cls_ops (length ts) f more
+  | UOk f more => cls_ops ci (length ts) f more
   | UErr => CErr
   | UUnm => CUnm
   end.
-
-(** Simple case folding, modelled for ASCII and Latin-1 letters only. *)
-Definition lower (c : char) : char :=
-  if in_rng 65 90 c then (c + 32)%N
-  else if in_rng 192 222 c && negb (N.eqb c 215) then (c + 32)%N else c.
-Definition upper (c : char) : char :=
-  if in_rng 97 122 c then (c - 32)%N
-  else if in_rng 224 254 c && negb (N.eqb c 247) then (c - 32)%N else c.
-
-Definition fold_set (ci : bool) (f : cset) : cset :=
-  if ci then fun x => f x || f (lower x) || f (upper x) else f.
 
 Definition chr_eq (ci : bool) (a b : char) : bool :=
   if ci then N.eqb (lower a) (lower b) else N.eqb a b.
@@ -217,11 +219,31 @@ Inductive status := SOk | SErr | SUnm.
 Definition st_join (a b : status) : status :=
   match a with SErr => SErr | SUnm => match b with SErr => SErr | _ => SUnm end | SOk => b end.
 
+(** An iterated group whose body can match the empty string, inside an atomic group or a
+    look-ahead: the order in which the real VM abandons empty iterations is not modelled. *)
+Fixpoint nullable (r : re) : bool :=
+  match r with
+  | REps | RStar _ | ROpt _ | RNegLook _ | RBol | REol => true
+  | RChr _ | RAny | RSet _ _ | RFail => false
+  | RCat a b => nullable a && nullable b
+  | RAlt a b => nullable a || nullable b
+  | RGrp a | RNcg a | RPlus a | RPlusLazy a | RAtomic a => nullable a
+  end.
+
+Fixpoint empty_loop (r : re) : bool :=
+  match r with
+  | RStar a | RPlus a | RPlusLazy a => nullable a || empty_loop a
+  | RCat a b | RAlt a b => empty_loop a || empty_loop b
+  | RGrp a | RNcg a | ROpt a | RNegLook a | RAtomic a => empty_loop a
+  | _ => false
+  end.
+
 Fixpoint re_status (r : re) : status :=
   match r with
-  | RSet neg items => match class_sem neg items with COk _ => SOk | CErr => SErr | CUnm => SUnm end
+  | RSet neg items => match class_sem false neg items with COk _ => SOk | CErr => SErr | CUnm => SUnm end
   | RCat a b | RAlt a b => st_join (re_status a) (re_status b)
-  | RGrp a | RNcg a | RStar a | RPlus a | ROpt a | RPlusLazy a | RNegLook a | RAtomic a => re_status a
+  | RNegLook a | RAtomic a => if empty_loop a then st_join SUnm (re_status a) else re_status a
+  | RGrp a | RNcg a | RStar a | RPlus a | ROpt a | RPlusLazy a => re_status a
   | _ => SOk
   end.
 
@@ -245,7 +267,7 @@ Section Match.
     match a with Some x => Some x | None => b tt end.
 
   Definition set_matches (neg : bool) (items : list citem) (x : char) : bool :=
-    match class_sem neg items with
+    match class_sem ci neg items with
     | COk f => xorb neg (fold_set ci f x)
     | _ => false
     end.
